@@ -1094,6 +1094,9 @@ def ray_rule(M, R, G):
         tgt = None
         if n.get('k') == 'assign' and n.get('op') in ('+=', '-='):
             tgt = n['lhs']
+        elif n.get('k') == 'assign' and n.get('op') == '=' and (fn.sn(n['lhs']) or {}).get('k') == 'var' and \
+                any(fn.nodes[x].get('k') == 'var' and fn.nodes[x].get('d') == fn.sn(n['lhs'])['d'] for x in fn.subtree(n['rhs'])):
+            tgt = n['lhs']          # n = n + 1
         elif n.get('k') == 'unop' and n.get('op') in ('++', '--'):
             tgt = n['sub']
         if tgt is None or not in_scan(n['id']):
@@ -1163,41 +1166,46 @@ def ray_rule(M, R, G):
     def at_loc(w):
         return w.eq(ax, lx) and w.eq(ay, ly)
     ray = [u for u in updates if not any(counted(u, w) for w in ws if at_loc(w)) and any(counted(u, w) for w in ws if not at_loc(w))]
-    if len(ray) != 1:
-        R.broken('%s: expected exactly one counter update for segments not starting at the location, found %d' % (key0, len(ray)))
+    def target_var(x):
+        t = fn.sn(x.get('lhs', x.get('sub')))
+        return t.get('d') if t is not None else None
+    if not ray or len({target_var(x) for x in ray}) != 1:
+        R.broken('%s: expected the counter updates for segments not starting at the location to update one counter, found %d update(s)' % (key0, len(ray)))
         return
+    # several updates of the same counter (`if (reverse) --n; else ++n;`) are alternatives of one step: each is checked
+    for u in ray:
+        decided = None
+        for w in ws:
+            cs = {c for (c, _s, v) in table[(u['id'], id(w))] if v is not None}
+            decided = cs if decided is None else (decided & cs)
+
+        def interval(w):            # the always-decided part of the guard
+            return all(v == sense for (c, sense, v) in table[(u['id'], id(w))] if c in decided)
+        site = fn.loc(u['id'])
+        # C1
+        bad = next((w for w in ws if w.eq(bx, lx) and w.eq(by, ly) and counted(u, w)), None)
+        R.check(bad is None, 'G4-ray-crossing-interval', key0 + '#segment-ending-at-the-location-is-not-counted', site,
+                'a segment whose second() end point IS the location (its cross product with the location is identically 0) is counted as lying '
+                'below it: the x interval must be open at second() when collinear points count%s' % (
+                    '; order type [%s], e.g. %s' % (pretty(bad.describe()), pretty(bad.witness())) if bad else ''))
+        # C2
+        bad = next((w for w in ws if w.lt(ax, lx) and w.lt(lx, bx) and not interval(w)), None)
+        R.check(bad is None, 'G4-ray-crossing-interval', key0 + '#segments-spanning-the-ray-are-considered', site,
+                'a segment with first().x < location.x < second().x is not considered%s' % ('; order type [%s]' % pretty(bad.describe()) if bad else ''))
+        bad = next((w for w in ws if (w.lt(lx, ax) or w.lt(bx, lx) or (w.eq(ax, bx))) and not at_loc(w) and interval(w)), None)
+        R.check(bad is None, 'G4-ray-crossing-interval', key0 + '#segments-beside-the-ray-and-vertical-ones-are-not-considered', site,
+                'a segment entirely left/right of the vertical ray, or a vertical one, is considered%s' % (
+                    '; order type [%s], e.g. %s' % (pretty(bad.describe()), pretty(bad.witness())) if bad else ''))
+        # C3
+        v1 = {interval(w) for w in ws if w.lt(ax, lx) and w.eq(bx, lx) and not (w.eq(by, ly))}
+        v2 = {interval(w) for w in ws if w.eq(ax, lx) and w.lt(lx, bx) and not at_loc(w)}
+        ok = len(v1) == 1 and len(v2) == 1 and v1 != v2
+        R.check(ok, 'G4-ray-crossing-interval', key0 + '#vertex-under-the-location-is-counted-once', site,
+                'of the two segments meeting in a vertex with x == location.x (one ending there, one starting there) exactly one must be '
+                'considered; ending: %s, starting: %s' % (sorted(v1), sorted(v2)))
+
+
     u = ray[0]
-    decided = None
-    for w in ws:
-        cs = {c for (c, _s, v) in table[(u['id'], id(w))] if v is not None}
-        decided = cs if decided is None else (decided & cs)
-
-    def interval(w):            # the always-decided part of the guard
-        return all(v == sense for (c, sense, v) in table[(u['id'], id(w))] if c in decided)
-    site = fn.loc(u['id'])
-    # C1
-    bad = next((w for w in ws if w.eq(bx, lx) and w.eq(by, ly) and counted(u, w)), None)
-    R.check(bad is None, 'G4-ray-crossing-interval', key0 + '#segment-ending-at-the-location-is-not-counted', site,
-            'a segment whose second() end point IS the location (its cross product with the location is identically 0) is counted as lying '
-            'below it: the x interval must be open at second() when collinear points count%s' % (
-                '; order type [%s], e.g. %s' % (pretty(bad.describe()), pretty(bad.witness())) if bad else ''))
-    # C2
-    bad = next((w for w in ws if w.lt(ax, lx) and w.lt(lx, bx) and not interval(w)), None)
-    R.check(bad is None, 'G4-ray-crossing-interval', key0 + '#segments-spanning-the-ray-are-considered', site,
-            'a segment with first().x < location.x < second().x is not considered%s' % ('; order type [%s]' % pretty(bad.describe()) if bad else ''))
-    bad = next((w for w in ws if (w.lt(lx, ax) or w.lt(bx, lx) or (w.eq(ax, bx))) and not at_loc(w) and interval(w)), None)
-    R.check(bad is None, 'G4-ray-crossing-interval', key0 + '#segments-beside-the-ray-and-vertical-ones-are-not-considered', site,
-            'a segment entirely left/right of the vertical ray, or a vertical one, is considered%s' % (
-                '; order type [%s], e.g. %s' % (pretty(bad.describe()), pretty(bad.witness())) if bad else ''))
-    # C3
-    v1 = {interval(w) for w in ws if w.lt(ax, lx) and w.eq(bx, lx) and not (w.eq(by, ly))}
-    v2 = {interval(w) for w in ws if w.eq(ax, lx) and w.lt(lx, bx) and not at_loc(w)}
-    ok = len(v1) == 1 and len(v2) == 1 and v1 != v2
-    R.check(ok, 'G4-ray-crossing-interval', key0 + '#vertex-under-the-location-is-counted-once', site,
-            'of the two segments meeting in a vertex with x == location.x (one ending there, one starting there) exactly one must be '
-            'considered; ending: %s, starting: %s' % (sorted(v1), sorted(v2)))
-
-
     # ---- G6: the backward scan starts behind EVERY segment that starts at the location
     scan = [l for l in scan_loops if fn.in_range(u['id'], l['b'], l['e'])]
     if not scan:
